@@ -38,6 +38,7 @@ func main() {
 			e2eRuns(run, run.Pick(60, 500))
 		case "svc":
 			lateFinderReply(run)
+			lateBlockReply(run)
 			svcSessions(run, run.Pick(40, 300))
 		case "recv":
 			recvSessions(run, run.Pick(200, 2000))
@@ -61,6 +62,7 @@ func main() {
 	unlinkedAnnouncement(run)
 	seqFilter(run)
 	lateFinderReply(run)
+	lateBlockReply(run)
 	svcSessions(run, run.Pick(40, 300))
 	recvSessions(run, run.Pick(200, 2000))
 	smallRecvOps(run)
